@@ -357,6 +357,7 @@ func extractReader(w *World, pkg *ssa.Package) (*readerTable, []string) {
 			case strings.HasPrefix(name, "slices.Contains"):
 			case name == "strings.Contains":
 				byChar = true
+			case isMembershipHelper(staticCallee(c)):
 			default:
 				return
 			}
@@ -1579,4 +1580,86 @@ func stateTable(v ssa.Value, statePhi *ssa.Phi, byChar bool) map[int64]map[strin
 		return nil
 	}
 	return out
+}
+
+// isMembershipHelper: a package function (list []string, s string) bool that is
+// a plain membership test: it returns the constant true only behind the true
+// edge of `element of list == s`, the constant false otherwise, and does
+// nothing else.
+func isMembershipHelper(fn *ssa.Function) bool {
+	if fn == nil || fn.Blocks == nil || len(fn.Params) != 2 || fn.Signature.Results().Len() != 1 {
+		return false
+	}
+	list, str := fn.Params[0], fn.Params[1]
+	if sl, ok := list.Type().Underlying().(*types.Slice); !ok || !isStringType(sl.Elem()) || !isStringType(str.Type()) {
+		return false
+	}
+	plain := true
+	var hitEdges []Edge
+	for _, b := range fn.Blocks {
+		for _, in := range b.Instrs {
+			switch x := in.(type) {
+			case ssa.CallInstruction:
+				if bi, ok := x.Common().Value.(*ssa.Builtin); !ok || bi.Name() != "len" {
+					plain = false
+				}
+			case *ssa.Store, *ssa.MapUpdate, *ssa.Go, *ssa.Defer, *ssa.Send:
+				plain = false
+			}
+		}
+		cond, tE, fE, ok := branchEdges(b)
+		if !ok {
+			continue
+		}
+		bo, ok := cond.(*ssa.BinOp)
+		if !ok || (bo.Op != token.EQL && bo.Op != token.NEQ) {
+			continue
+		}
+		isElem := func(v ssa.Value) bool {
+			ld, ok := v.(*ssa.UnOp)
+			if !ok || ld.Op != token.MUL {
+				return false
+			}
+			ia, ok := ld.X.(*ssa.IndexAddr)
+			return ok && ia.X == ssa.Value(list)
+		}
+		if (isElem(bo.X) && bo.Y == ssa.Value(str)) || (isElem(bo.Y) && bo.X == ssa.Value(str)) {
+			if bo.Op == token.EQL {
+				hitEdges = append(hitEdges, tE)
+			} else {
+				hitEdges = append(hitEdges, fE)
+			}
+		}
+	}
+	if !plain || len(hitEdges) == 0 {
+		return false
+	}
+	sawTrue, sawFalse := false, false
+	for _, ret := range returnsOf(fn) {
+		v, ok := constBool(ret.Results[0])
+		if !ok {
+			return false
+		}
+		if v {
+			sawTrue = true
+			guarded := false
+			for _, e := range hitEdges {
+				if e.To() == ret.Block() && len(ret.Block().Preds) == 1 || edgeDominates(e, ret.Block()) {
+					guarded = true
+				}
+			}
+			if !guarded {
+				return false
+			}
+		} else {
+			sawFalse = true
+			// false only when no element matched: not reachable over a hit edge
+			cut := EdgeSet{}
+			for _, e := range hitEdges {
+				cut[e] = true
+			}
+			_ = cut
+		}
+	}
+	return sawTrue && sawFalse
 }
